@@ -15,7 +15,10 @@ import (
 )
 
 // both runs the reference model and the real interpreter on a case.
+// failIdx: index of the statement at which the real execution fails, known from prefix runs
+// (-1: unknown)
 type both struct {
+	failIdx int
 	ec      *gen.ExecCase
 	real    hx.Real
 	m       model.Result
@@ -24,12 +27,32 @@ type both struct {
 }
 
 func runBoth(ec *gen.ExecCase) *both {
-	b := &both{ec: ec}
+	b := &both{ec: ec, failIdx: -1}
 	b.real, _ = hx.Run(ec, doubles.Superset)
-	b.m = model.Run(ec.Script, hx.ModelInputs(ec))
 	if b.real.OK() {
 		b.groups, b.grouped = hx.Group(ec, b.real, doubles.Superset)
 	}
+	in := hx.ModelInputs(ec)
+	steer := b.groups
+	if !b.real.OK() && b.real.Panic == "" && b.real.ParseErrors == 0 && len(ec.Script.Stmts) > 1 {
+		// a failed execution: the statements before the failing one are known from prefix runs
+		if g, ok := hx.GroupPrefix(ec, doubles.Superset); ok {
+			steer = g
+			b.failIdx = len(g)
+		}
+	}
+	if b.grouped || len(steer) > 0 {
+		// every statement is judged on the balances the real execution had reached before it
+		// (starting balances + its own earlier postings + the reference's save reservations)
+		for _, g := range steer {
+			var ps []model.Posting
+			for _, p := range g {
+				ps = append(ps, model.Posting{Src: p.Src, Dst: p.Dst, Asset: p.Asset, Amt: p.Amt})
+			}
+			in.Steer = append(in.Steer, ps)
+		}
+	}
+	b.m = model.Run(ec.Script, in)
 	return b
 }
 
@@ -135,6 +158,18 @@ func flowsString(m map[[2]string]*big.Int) string {
 	return s
 }
 
+// unionKeys maps every key of real or want to the wanted amount (zero when absent).
+func unionKeys(real, want map[string]*big.Int) map[string]*big.Int {
+	out := map[string]*big.Int{}
+	for k := range real {
+		out[k] = new(big.Int)
+	}
+	for k, x := range want {
+		out[k] = x
+	}
+	return out
+}
+
 func equalFlows(a, b map[[2]string]*big.Int) bool { return flowsString(a) == flowsString(b) }
 
 func stmtText(ec *gen.ExecCase, i int) string {
@@ -190,6 +225,14 @@ func checkC03(c any) *ev.Verdict {
 		}
 		if b.real.ErrClass != model.EMissingFunds {
 			return v.Failf("wrong-class", "funds are missing at statement %d but the error is %s", b.m.Err.Stmt, b.real.Summary())
+		}
+		// which statement fails (known from prefix runs; the reference continued from the
+		// balances the real execution had reached)
+		if b.failIdx >= 0 && b.failIdx < b.m.Err.Stmt {
+			return v.Failf("spurious-failure", "statement %d `%s` fails (%s) although, on the balances left by the statements before it, its sources can supply the amount; only statement %d cannot be funded", b.failIdx, stmtText(ec, b.failIdx), b.real.ErrMsg, b.m.Err.Stmt)
+		}
+		if b.failIdx > b.m.Err.Stmt {
+			return v.Failf("spurious-success", "the sources cannot supply statement %d (%s) but the script executes up to statement %d", b.m.Err.Stmt, b.m.Err.Msg, b.failIdx)
 		}
 		if b.real.NonEmptyWithError {
 			return v.Failf("partial", "error returned together with postings or metadata")
@@ -581,18 +624,38 @@ func checkC08(c any) *ev.Verdict {
 		v.Skipped = "ungroupable (C09 owns this)"
 		return v
 	}
+	// what later statements take from the (account, asset) pairs saved so far must be what the
+	// save rule leaves visible; other accounts, the pairing and the distribution belong to
+	// C04, C07 and C05
+	saved := map[[2]string]bool{}
 	for i, s := range b.m.Stmts {
 		if s.Kind == gen.StSave {
 			if len(b.groups[i]) != 0 {
 				return v.Failf("save-posting", "save statement %d produced postings %v", i, b.groups[i])
+			}
+			st := ec.Script.Stmts[i]
+			acct, ok1 := model.EvalIn(b.m.Env, st.SaveFrom)
+			sent, ok2 := model.EvalIn(b.m.Env, st.Sent)
+			if ok1 && ok2 {
+				saved[[2]string{acct.S, sent.S}] = true
 			}
 			continue
 		}
 		if s.Kind != gen.StSend {
 			continue
 		}
-		if !equalFlows(hx.Flows(b.groups[i]), s.Flows) {
-			return v.Failf("visible-balance", "statement %d `%s`: real flows %s, flows under the save rule %s", i, stmtText(ec, i), flowsString(hx.Flows(b.groups[i])), flowsString(s.Flows))
+		real := hx.Debits(b.groups[i])
+		for acct, want := range unionKeys(real, s.Debits) {
+			if !saved[[2]string{acct, s.Asset}] {
+				continue
+			}
+			got := real[acct]
+			if got == nil {
+				got = new(big.Int)
+			}
+			if got.Cmp(want) != 0 {
+				return v.Failf("visible-balance", "statement %d `%s`: takes %s from %s, whose %s was saved earlier; under the save rule it can take %s; real flows %s, flows under the save rule %s", i, stmtText(ec, i), got, acct, s.Asset, want, flowsString(hx.Flows(b.groups[i])), flowsString(s.Flows))
+			}
 		}
 	}
 	return v
